@@ -202,20 +202,17 @@ structure Slot where
   c : Option Cont := none
   deriving Repr, DecidableEq, Inhabited
 
-/-- `PutContainerValues`: insert at the key's position or overwrite type and n. -/
-def putCV (key typ n : Nat) : List Slot → List Slot
+/-- `PutContainerValues` (insert at the key's position, or overwrite type and n of an existing
+key) on the slots kept in DESCENDING key order: a header with ascending keys costs one step per
+container. `pHdrLoop`/`oHdrLoop` reverse the list when the header has been read. -/
+def putCVd (key typ n : Nat) : List Slot → List Slot
   | [] => [{ key, typ, n }]
   | s :: r =>
-    if key < s.key then { key, typ, n } :: s :: r
+    if s.key < key then { key, typ, n } :: s :: r
     else if key = s.key then { s with typ := typ, n := n } :: r
-    else s :: putCV key typ n r
+    else s :: putCVd key typ n r
 
-def setSlot (slots : List Slot) (j : Nat) (c : Cont) : List Slot :=
-  slots.modify j (fun s => { s with c := some c })
-
-/-- The container the `citer.Next(); citer.Value()` pair yields on the `i`-th call: the
-iterator stays on the last container once it is exhausted (repeated keys in the header). -/
-def citerIdx (slots : List Slot) (i : Nat) : Nat := min i (slots.length - 1)
+def Slot.attach (s : Slot) (c : Cont) : Slot := { s with c := some c }
 
 def slotsToEntries : List Slot → List Entry
   | [] => []
@@ -468,16 +465,43 @@ def importItems (clear : Bool) : VMap → List Item → VMap × Nat
     let (m2, c2) := importItems clear m1 r
     (m2, c1 + c2)
 
-/-- `ImportRoaringBits(data, clear, log=false, 0)`: the payload is walked once for validation;
-only a walk that ends in io.EOF is applied. Result: new map and `changed`. -/
-def importBits (m : VMap) (d : Bytes) (clear : Bool) : Res (VMap × Nat) :=
+/-- Outcome of the validation walk of `ImportRoaringBits`: every container `Next` yields is
+checked against its header (`importedContainerIsConsistent`) before the next call, so the first
+inconsistent container wins over a later structural error. -/
+def walkVerdict (w : Walk) : Option Err :=
+  if w.items.all (fun it => it.c.wf it.n) then w.err else some .illFormed
+
+/-- `ImportRoaringBits(data, clear, log=false, 0)` as a state transformer: the bitmap after the
+call and the call's result (`changed`).  The payload is walked once for validation; only a walk
+that ends in io.EOF over consistent containers is applied. -/
+def importBitsSt (m : VMap) (d : Bytes) (clear : Bool) : VMap × Res Nat :=
   match iterate d with
-  | .panic s => .panic s
-  | .err e => .err e
+  | .panic s => (m, .panic s)
+  | .err e => (m, .err e)
   | .ok w =>
+    match walkVerdict w with
+    | some e => (m, .err e)
+    | none => let r := importItems clear m w.items; (r.1, .ok r.2)
+
+def importBits (m : VMap) (d : Bytes) (clear : Bool) : Res (VMap × Nat) :=
+  match importBitsSt m d clear with
+  | (m', .ok ch) => .ok (m', ch)
+  | (_, .err e) => .err e
+  | (_, .panic s) => .panic s
+
+/-- The import loop BEFORE `fix: ImportRoaringBits validates the whole payload before changing
+the bitmap`: containers were merged while the payload was being walked, so the containers in
+front of a malformed one stayed applied when the call returned its error (regression witness in
+PV.C06.Props). -/
+def importBitsStOld (m : VMap) (d : Bytes) (clear : Bool) : VMap × Res Nat :=
+  match iterate d with
+  | .panic s => (m, .panic s)
+  | .err e => (m, .err e)
+  | .ok w =>
+    let r := importItems clear m w.items
     match w.err with
-    | some e => .err e
-    | none => .ok (importItems clear m w.items)
+    | some e => (r.1, .err e)
+    | none => (r.1, .ok r.2)
 
 /-! ### the op log -/
 
@@ -564,8 +588,8 @@ def opsLoop : Nat → Bytes → VMap → Nat → Nat → Res (VMap × Nat × Nat
 /-! ### UnmarshalBinary, Pilosa format -/
 
 def pHdrLoop : Nat → Bytes → List Slot → Res (List Slot)
-  | 0, _, slots => pure slots
-  | k + 1, buf, slots => do
+  | 0, _, slotsDesc => pure slotsDesc.reverse
+  | k + 1, buf, slotsDesc => do
     let key ← rd "pilosa.hdr.key" buf 0 8
     let t ← rd "pilosa.hdr.typ" buf 8 2
     let n1 ← rd "pilosa.hdr.n" buf 10 2
@@ -573,7 +597,7 @@ def pHdrLoop : Nat → Bytes → List Slot → Res (List Slot)
     if typ ≠ cArray ∧ typ ≠ cBitmap ∧ typ ≠ cRun then .err .badType
     else do
       let rest ← sub "pilosa.hdr.next" buf 12 buf.length
-      pHdrLoop k rest (putCV key typ (n1 + 1) slots)
+      pHdrLoop k rest (putCVd key typ (n1 + 1) slotsDesc)
 
 /-- Attach the data at `off` to a slot of type/n; returns the container and the new opsOffset. -/
 def pAttach (d : Bytes) (typ n off : Nat) : Res (Cont × Nat) :=
@@ -597,21 +621,26 @@ def pAttach (d : Bytes) (typ n off : Nat) : Res (Cont × Nat) :=
       pure (.bitmap pl, off + bitmapBytes)
   else .err .badType
 
-def pOffLoop (d : Bytes) : Nat → Bytes → Nat → List Slot → Nat → Res (List Slot × Nat)
-  | 0, _, _, slots, oo => pure (slots, oo)
-  | k + 1, buf, i, slots, oo => do
+/-- The offsets loop. `citer.Next(); citer.Value()` walks the containers in key order and stays
+on the last one once it is exhausted (repeated keys in the header leave fewer containers than
+offsets): `done` (reversed) are the containers the iterator has left, `rem` the one it is on
+and those to come. -/
+def pOffLoop (d : Bytes) : Nat → Bytes → List Slot → List Slot → Nat → Res (List Slot × Nat)
+  | 0, _, done, rem, oo => pure (done.reverse ++ rem, oo)
+  | k + 1, buf, done, rem, oo => do
     let off ← rd "pilosa.off" buf 0 4
     if off ≥ d.length then .err .offsetOOB
-    else do
-      let j := citerIdx slots i
-      let (slots', oo') ←
-        match slots[j]? with
-        | none => (pure (slots, oo) : Res (List Slot × Nat))      -- c == nil: continue
-        | some s => do
-          let (c, o) ← pAttach d s.typ s.n off
-          pure (setSlot slots j c, o)
-      let rest ← sub "pilosa.off.next" buf 4 buf.length
-      pOffLoop d k rest (i + 1) slots' oo'
+    else
+      match rem with
+      | [] => do                                             -- c == nil: continue
+        let rest ← sub "pilosa.off.next" buf 4 buf.length
+        pOffLoop d k rest done [] oo
+      | s :: r => do
+        let (c, o) ← pAttach d s.typ s.n off
+        let rest ← sub "pilosa.off.next" buf 4 buf.length
+        match r with
+        | [] => pOffLoop d k rest done [s.attach c] o
+        | _ :: _ => pOffLoop d k rest (s.attach c :: done) r o
 
 def unmarshalPilosa (d : Bytes) : Res Decoded := do
   if d.length < 8 then .err .tooSmall
@@ -629,7 +658,7 @@ def unmarshalPilosa (d : Bytes) : Res Decoded := do
         let hbuf ← sub "pilosa.headers" d 8 d.length
         let slots ← pHdrLoop keyN hbuf []
         let obuf ← sub "pilosa.offsets" d (8 + keyN * 12) d.length
-        let (slots, oo) ← pOffLoop d keyN obuf 0 slots (8 + keyN * 12)
+        let (slots, oo) ← pOffLoop d keyN obuf [] slots (8 + keyN * 12)
         let cs := slotsToEntries slots
         let lbuf ← sub "pilosa.ops" d oo d.length
         let (m, ops, opN) ← opsLoop lbuf.length lbuf (entriesToVMap cs) 0 0
@@ -638,82 +667,97 @@ def unmarshalPilosa (d : Bytes) : Res Decoded := do
 /-! ### UnmarshalBinary, official format -/
 
 def oHdrLoop (h : OffHeader) : Nat → Nat → Bytes → List Slot → Res (List Slot)
-  | 0, _, _, slots => pure slots
-  | k + 1, i, buf, slots => do
+  | 0, _, _, slotsDesc => pure slotsDesc.reverse
+  | k + 1, i, buf, slotsDesc => do
     let n1 ← rd "official.hdr.n" buf 2 2
     let key ← rd "official.hdr.key" buf 0 2
     let typ ← officialType h i (n1 + 1)
     let rest ← sub "official.hdr.next" buf 4 buf.length
-    oHdrLoop h k (i + 1) rest (putCV key typ (n1 + 1) slots)
+    oHdrLoop h k (i + 1) rest (putCVd key typ (n1 + 1) slotsDesc)
 
-/-- `readOffsets`. -/
-def oOffLoop (d : Bytes) : Nat → Bytes → Nat → List Slot → Res (List Slot)
-  | 0, _, _, slots => pure slots
-  | k + 1, buf, i, slots => do
+/-- One container of `readOffsets` at `off`. -/
+def oOffAttach (d : Bytes) (typ n off : Nat) : Res Cont :=
+  if typ = cArray then
+    if off + n * 2 > d.length then .err .contOOB
+    else do
+      let pl ← view "official.array.view" d off (n * 2)
+      pure (.array (u16s pl))
+  else if typ = cBitmap then
+    if off + bitmapBytes > d.length then .err .contOOB
+    else do
+      let pl ← view "official.bitmap.view" d off bitmapBytes
+      pure (.bitmap pl)
+  else .err .badType
+
+/-- `readOffsets` (container iterator as in `pOffLoop`). -/
+def oOffLoop (d : Bytes) : Nat → Bytes → List Slot → List Slot → Res (List Slot)
+  | 0, _, done, rem => pure (done.reverse ++ rem)
+  | k + 1, buf, done, rem => do
     if buf.length < 4 then .err .offsIncomplete
     else do
       let off ← rd "official.off" buf 0 4
       if off ≥ d.length then .err .offsetOOB
+      else
+        match rem with
+        | [] => .panic "official.citer.nil"
+        | s :: r => do
+          let c ← oOffAttach d s.typ s.n off
+          let rest ← sub "official.off.next" buf 4 buf.length
+          match r with
+          | [] => oOffLoop d k rest done [s.attach c]
+          | _ :: _ => oOffLoop d k rest (s.attach c :: done) r
+
+/-- One container of `readWithRuns` at `pos`: contents and the position behind it. -/
+def oRunAttach (d : Bytes) (typ n pos : Nat) : Res (Option Cont × Nat) :=
+  if typ = cRun then
+    if pos + 2 ≥ d.length then .err .contOOB
+    else do
+      let rc ← rd "official.run.count" d pos 2
+      if pos + 2 + rc * 4 > d.length then .err .contOOB
       else do
-        let j := citerIdx slots i
-        match slots[j]? with
-        | none => .panic "official.citer.nil"
-        | some s =>
-          if s.typ = cArray then
-            if off + s.n * 2 > d.length then .err .contOOB
-            else do
-              let pl ← view "official.array.view" d off (s.n * 2)
-              let rest ← sub "official.off.next" buf 4 buf.length
-              oOffLoop d k rest (i + 1) (setSlot slots j (.array (u16s pl)))
-          else if s.typ = cBitmap then
-            if off + bitmapBytes > d.length then .err .contOOB
-            else do
-              let pl ← view "official.bitmap.view" d off bitmapBytes
-              let rest ← sub "official.off.next" buf 4 buf.length
-              oOffLoop d k rest (i + 1) (setSlot slots j (.bitmap pl))
-          else .err .badType
+        let pl ← view "official.run.view" d (pos + 2) (rc * 4)
+        pure (some (.run (runsO pl)), pos + rc * 4 + 2)
+  else if typ = cArray then
+    if pos + n * 2 > d.length then .err .contOOB
+    else do
+      let pl ← view "official.array.view" d pos (n * 2)
+      pure (some (.array (u16s pl)), pos + n * 2)
+  else if typ = cBitmap then
+    if pos + bitmapBytes > d.length then .err .contOOB
+    else do
+      let pl ← view "official.bitmap.view" d pos bitmapBytes
+      pure (some (.bitmap pl), pos + bitmapBytes)
+  else pure (none, pos)
 
 /-- `readWithRuns` (containers are read sequentially from `pos`). -/
-def oRunLoop (d : Bytes) : Nat → Nat → List Slot → Nat → Res (List Slot)
-  | 0, _, slots, _ => pure slots
-  | k + 1, i, slots, pos =>
-    let j := citerIdx slots i
-    match slots[j]? with
-    | none => .panic "official.citer.nil"
-    | some s =>
-      if s.typ = cRun then
-        if pos + 2 ≥ d.length then .err .contOOB
-        else do
-          let rc ← rd "official.run.count" d pos 2
-          if pos + 2 + rc * 4 > d.length then .err .contOOB
-          else do
-            let pl ← view "official.run.view" d (pos + 2) (rc * 4)
-            oRunLoop d k (i + 1) (setSlot slots j (.run (runsO pl))) (pos + rc * 4 + 2)
-      else if s.typ = cArray then
-        if pos + s.n * 2 > d.length then .err .contOOB
-        else do
-          let pl ← view "official.array.view" d pos (s.n * 2)
-          oRunLoop d k (i + 1) (setSlot slots j (.array (u16s pl))) (pos + s.n * 2)
-      else if s.typ = cBitmap then
-        if pos + bitmapBytes > d.length then .err .contOOB
-        else do
-          let pl ← view "official.bitmap.view" d pos bitmapBytes
-          oRunLoop d k (i + 1) (setSlot slots j (.bitmap pl)) (pos + bitmapBytes)
-      else oRunLoop d k (i + 1) slots pos
+def oRunLoop (d : Bytes) : Nat → List Slot → List Slot → Nat → Res (List Slot)
+  | 0, done, rem, _ => pure (done.reverse ++ rem)
+  | k + 1, done, rem, pos =>
+    match rem with
+    | [] => .panic "official.citer.nil"
+    | s :: r => do
+      let (c, pos') ← oRunAttach d s.typ s.n pos
+      let s' := match c with
+        | some c => s.attach c
+        | none => s
+      match r with
+      | [] => oRunLoop d k done [s'] pos'
+      | _ :: _ => oRunLoop d k (s' :: done) r pos'
+
+/-- Attach the container data: `readWithRuns` / `readOffsets`. -/
+def oAttachAll (d : Bytes) (h : OffHeader) (slots : List Slot) : Res (List Slot) :=
+  if h.haveRuns then
+    if d.length < h.pos + 2 then .err .offsIncomplete
+    else oRunLoop d h.size [] slots (if h.size ≥ noOffsetThreshold then h.pos + h.size * 4 else h.pos)
+  else do
+    let obuf ← sub "official.offsets" d h.pos d.length
+    oOffLoop d h.size obuf [] slots
 
 def unmarshalOfficial (d : Bytes) : Res Decoded := do
   let h ← readOfficialHeader d
   let hbuf ← sub "official.headers" d h.header d.length
   let slots ← oHdrLoop h h.size 0 hbuf []
-  let slots ←
-    if h.haveRuns then
-      if d.length < h.pos + 2 then (Res.err .offsIncomplete : Res (List Slot))
-      else
-        let pos := if h.size ≥ noOffsetThreshold then h.pos + h.size * 4 else h.pos
-        oRunLoop d h.size 0 slots pos
-    else do
-      let obuf ← sub "official.offsets" d h.pos d.length
-      oOffLoop d h.size obuf 0 slots
+  let slots ← oAttachAll d h slots
   let cs := slotsToEntries slots
   pure { flags := 0, cs, vals := entriesToVMap cs, ops := 0, opN := 0 }
 
